@@ -242,7 +242,25 @@ def run(ctx):
             ctx.case(('lib', i, driver, tuple(plan)), True, sample=dict(argv=argv, plan=plan, closed=closed, returned=returned) if i in (0, 3) else None)
             if r.cls == 'hang' or not closed or not returned:
                 ctx.violation(f'lib-{i}.json', dict(argv=argv, plan=plan, stdout=r.stdout_full[-500:], cls=r.cls), f'C07: library client: channel closed={closed}, copy returned={returned}, {r.cls} ({driver}, plan {plan})')
-    ctx.cov['rule'] = ('trees {FIFOs+sockets+empty dirs, empty tree, a sole FIFO, 60 files + a multi-block file, a FIFO at the destination under -n, a sparse file ending in preallocated unwritten extents} x driver x workers {1,64} (thorough 1,2,3,8,64); '
+        # a client that calls copy() and reads the updates only AFTERWARDS, on a tree that produces thousands of updates: the provided
+        # updater must not make the copy wait for a reader (free-running: no supervisor in the way)
+        for driver in ('parfile', 'parblock'):
+            if enough(ctx):
+                break
+            shutil.rmtree(root + '/S', ignore_errors=True); shutil.rmtree(root + '/D', ignore_errors=True)
+            for k in range(5000):
+                if k % 250 == 0:
+                    os.makedirs(f'{root}/S/d{k // 250}')
+                open(f'{root}/S/d{k // 250}/f{k}', 'wb').write(b'x' * (k % 7))
+            argv = ['--driver', driver, '--workers', '4', '--updater', 'channel-late', '--', 'S', 'D']
+            r = scen.run_xcp(root, argv, timeout=LIMIT + 20, binary=probe, trace=False)
+            lines = r.stdout_full.split('\n')
+            closed = 'closed' in lines; returned = any(l.startswith('result ok') for l in lines)
+            ctx.count(f'library.late_reader.{r.cls}'); ctx.case(('lib-late-reader', driver), True)
+            if r.cls == 'hang' or not closed or not returned:
+                ctx.violation(f'lib-late-reader-{driver}.json', dict(argv=argv, stdout=r.stdout_full[-300:], cls=r.cls),
+                              f'C07: a library client that reads the updates after copy() returned never got there: 5000 files, channel closed={closed}, copy returned ok={returned}, {r.cls} ({driver})')
+    ctx.cov['rule'] = ('a client reading the channel only after copy() returned (5000 files); trees {FIFOs+sockets+empty dirs, empty tree, a sole FIFO, 60 files + a multi-block file, a FIFO at the destination under -n, a sparse file ending in preallocated unwritten extents} x driver x workers {1,64} (thorough 1,2,3,8,64); '
                        f'then one injected fault at each step-call (quick: 30 sampled per tree) under a seeded perturbed schedule with random worker count; library probe with ChannelUpdater; RLIMIT_NOFILE 4..12 for one file and for a tree with 16 workers. Time limit {LIMIT}s. '
                        'distinct = distinct (tree, driver, workers, plan)')
     ctx.assumptions += ['a hang is observed as exceeding the wall-clock limit (25 s for runs that normally take milliseconds)']
